@@ -18,6 +18,6 @@ CHECK = {
     "bounds": {"quick": "TODO", "thorough": "TODO"},
     "units": {
         "tamper": {"pkg": "internal/verifshim/h_c01", "run": "TestVerifC01Tamper", "harness": _H,
-                   "shards": 16, "gomaxprocs": 2, "budget_s": {"quick": 75, "thorough": 660}},
+                   "shards": 16, "gomaxprocs": 2, "budget_s": {"quick": 85, "thorough": 660}},
     },
 }
